@@ -24,6 +24,16 @@ func (c *Cluster) RoundTrip(group string, req *http.Request) (*http.Response, er
 	status := func(code int, reason, msg string) *http.Response {
 		return body(code, map[string]interface{}{"kind": "Status", "apiVersion": "v1", "status": "Failure", "reason": reason, "code": code, "message": msg})
 	}
+	// an injected fault answers with the configured status (500 unless FailCode says 403 or 422)
+	faultStatus := func(msg string) *http.Response {
+		switch c.FailCode {
+		case 403:
+			return status(403, "Forbidden", msg)
+		case 422:
+			return status(422, "Invalid", msg)
+		}
+		return status(500, "InternalError", msg)
+	}
 	k, ok := parsePath(req.URL.Path)
 	if ok && k.Group == "" {
 		k.Group = group
@@ -38,7 +48,7 @@ func (c *Cluster) RoundTrip(group string, req *http.Request) (*http.Response, er
 		defer c.end(r)
 		if r.Rejected {
 			r.Result = "error"
-			return status(500, "InternalError", "injected fault (get)"), nil
+			return faultStatus("injected fault (get)"), nil
 		}
 		o, found := c.doGet(k)
 		if !found {
@@ -59,7 +69,7 @@ func (c *Cluster) RoundTrip(group string, req *http.Request) (*http.Response, er
 		defer c.end(r)
 		if r.Rejected {
 			r.Result = "error"
-			return status(500, "InternalError", "injected fault (create)"), nil
+			return faultStatus("injected fault (create)"), nil
 		}
 		res, st := c.doCreate(k, u, dry)
 		r.Result = st
@@ -74,7 +84,7 @@ func (c *Cluster) RoundTrip(group string, req *http.Request) (*http.Response, er
 		defer c.end(r)
 		if r.Rejected {
 			r.Result = "error"
-			return status(500, "InternalError", "injected fault (patch)"), nil
+			return faultStatus("injected fault (patch)"), nil
 		}
 		var patch map[string]interface{}
 		if strings.Contains(ct, "apply-patch") {
@@ -109,6 +119,42 @@ func (c *Cluster) RoundTrip(group string, req *http.Request) (*http.Response, er
 		res, st := c.doReplace(k, &unstructured.Unstructured{Object: merged}, dry)
 		r.Result = st
 		return body(200, res.Object), nil
+	case http.MethodDelete:
+		// (kubectl's apply --force path: delete and re-create after a rejected PATCH)
+		b, _ := io.ReadAll(req.Body)
+		var opts struct {
+			Preconditions *struct {
+				UID *string `json:"uid"`
+			} `json:"preconditions"`
+			PropagationPolicy *string `json:"propagationPolicy"`
+		}
+		_ = json.Unmarshal(b, &opts)
+		r := &Req{Verb: "delete", Via: "http", Key: k, Mutating: true, DryRun: dry}
+		if opts.Preconditions != nil && opts.Preconditions.UID != nil {
+			r.PrecondUID = *opts.Preconditions.UID
+		}
+		if opts.PropagationPolicy != nil {
+			r.Propagation = *opts.PropagationPolicy
+		}
+		c.begin(r)
+		defer c.end(r)
+		if r.Rejected {
+			r.Result = "error"
+			return faultStatus("injected fault (delete)"), nil
+		}
+		if dry {
+			r.Result = "ok"
+			return status(200, "", "dry-run delete"), nil
+		}
+		st := c.doDelete(k, r.PrecondUID)
+		r.Result = st
+		switch st {
+		case "notfound":
+			return status(404, "NotFound", k.String()+" not found"), nil
+		case "conflict":
+			return status(409, "Conflict", "the UID in the precondition does not match"), nil
+		}
+		return body(200, map[string]interface{}{"kind": "Status", "apiVersion": "v1", "status": "Success"}), nil
 	}
 	return status(405, "MethodNotAllowed", req.Method), nil
 }
